@@ -5,6 +5,7 @@
 #include <cstdlib>
 #include <cstdio>
 #include <cstring>
+#include <set>
 #include <fstream>
 #include <sstream>
 #include <string>
@@ -130,6 +131,12 @@ struct Case {
     return h;
   }
 };
+
+// tag strings composed at run time (prefix + name) live for the whole process
+inline const char* Intern(const std::string& s) {
+  static auto* pool = new std::set<std::string>;
+  return pool->insert(s).first->c_str();
+}
 
 struct Verdict {
   bool ok = true;
